@@ -316,6 +316,13 @@ func init() {
 
 	// ---- math/bits & misc pure helpers implemented by the compiler as intrinsics have Go bodies; nothing needed ----
 
+	// curve parameter tables are big-number code the engine does not run: the
+	// constructors return a nil Curve (harnesses that reach curve arithmetic
+	// replace it by stand-ins anyway); keeps package initialisers that mention a
+	// curve from failing
+	for _, n := range []string{"crypto/elliptic.P224", "crypto/elliptic.P256", "crypto/elliptic.P384", "crypto/elliptic.P521"} {
+		ext(n, func(fr *frame, args []value) value { return iface{} })
+	}
 	ext("crypto/internal/boring/sig.StandardCrypto", nop)
 	ext("crypto/internal/boring/sig.BoringCrypto", nop)
 	ext("crypto/internal/boring/sig.FIPSOnly", nop)
